@@ -371,6 +371,88 @@ Definition send_apdu (app : Z -> bytes -> bytes) (fuel : nat) (k : cfg) (kc : cc
   end.
 
 (* ------------------------------------------------------------------------------
+   HEAD b65ae89 (fixes/c08-19-isodep-wtx-chaining-without-end.diff): exchange() keeps ONE counter n_extra for the
+   whole exchange, incremented at every S(WTX) request accepted in one of the two (repaired) WTX loops and at every
+   pass of the response chaining `while`; when it exceeds self.max_extra_blocks (65538) the exchange ends with
+   Type4TagCommandError(PROTOCOL_ERROR).  [pcd_absorb] above is the reader without that counter; [pcd_absorb_x]
+   threads it: [nx] = n_extra, [mx] = Some self.max_extra_blocks, or None for a tree before b65ae89 (the counter is
+   then a ghost: it counts, nothing depends on it). *)
+Definition MAX_EXTRA_BLOCKS : Z := 65538.
+Record xpcd := { xp : pcd; nx : Z }.
+Definition is_recv (p : pcd) : bool := match ph p with PRecv _ _ _ => true | _ => false end.
+(* an S(WTX) block that carries its WTXM byte arrives inside a repaired WTX loop: n_extra += 1 *)
+Definition wtx_event (k : cfg) (p : pcd) (a : aresult) : bool :=
+  match a with
+  | ARx (b0 :: _ :: _) =>
+      is_wtx b0 && match ph p with PSend _ _ _ => fix_wtx_try k | PRecv _ _ _ => fix_wtx_chain k | _ => false end
+  | _ => false
+  end.
+(* `while bool(data[0] & 0b00010000)` is entered or continued - exactly when the step ends in the chaining
+   loop with the block number toggled (retries and S(WTX) echoes keep the block number): n_extra += 1 *)
+Definition chain_event (p p' : pcd) : bool := is_recv p' && negb (pni p' =? pni p).
+Definition over (mx : option Z) (n : Z) : bool := match mx with Some m => n >? m | None => false end.
+Definition pcd_absorb_x (k : cfg) (mx : option Z) (cmd : bytes) (x : xpcd) (a : aresult) : xpcd :=
+  let p := xp x in
+  let p' := pcd_absorb k cmd p a in
+  if wtx_event k p a then
+    let n := nx x + 1 in                       (* raise nfc.clf.ProtocolError("WTX without end") inside the try *)
+    {| xp := if over mx n then with_ph (pni p) (tagerr E_PROTOCOL) else p'; nx := n |}
+  else if chain_event p p' then
+    let n := nx x + 1 in                       (* raise Type4TagCommandError(PROTOCOL_ERROR), self.pni already toggled *)
+    {| xp := if over mx n then with_ph (pni p') (tagerr E_PROTOCOL) else p'; nx := n |}
+  else {| xp := p'; nx := nx x |}.
+
+Section PiccX.
+Variable app : Z -> bytes -> bytes.
+
+Definition roundx (k : cfg) (mx : option Z) (kc : ccfg) (cmd : bytes) (st : xpcd * picc) (ff : fate * fate) : xpcd * picc :=
+  let '(x, c) := st in
+  if is_done (xp x) then st else
+  let '(c', a) := air app kc c (pcd_emit (xp x)) ff in (pcd_absorb_x k mx cmd x a, c').
+
+(* result and final value of n_extra *)
+Fixpoint runx (fuel : nat) (k : cfg) (mx : option Z) (kc : ccfg) (cmd : bytes) (x : xpcd) (c : picc)
+              (sc : list (fate * fate)) (tr : list bytes) : outcome * Z :=
+  match ph (xp x) with
+  | PDone r => ({| o_res := r; o_pni := pni (xp x); o_card := c; o_blocks := rev tr |}, nx x)
+  | _ =>
+    match fuel with
+    | O => ({| o_res := Hang; o_pni := pni (xp x); o_card := c; o_blocks := rev tr |}, nx x)
+    | S f =>
+      let ff := match sc with [] => (FD, FD) | y :: _ => y end in
+      let '(x', c') := roundx k mx kc cmd (x, c) ff in
+      runx f k mx kc cmd x' c' (tl sc) (pcd_emit (xp x) :: tr)
+    end
+  end.
+
+(* IsoDepInitiator.exchange(command) at HEAD: n_extra = 0 before the first block *)
+Definition exchangex (fuel : nat) (k : cfg) (mx : option Z) (kc : ccfg) (cmd : bytes) (pn : Z) (c : picc)
+                     (sc : list (fate * fate)) : outcome * Z :=
+  runx fuel k mx kc cmd {| xp := pcd_start k cmd pn; nx := 0 |} c sc [].
+End PiccX.
+
+Fixpoint run_streamx (fuel : nat) (k : cfg) (mx : option Z) (cmd : bytes) (x : xpcd) (s : nat -> aresult) (n : nat) : res bytes :=
+  match ph (xp x) with
+  | PDone r => r
+  | _ => match fuel with
+         | O => Hang
+         | S f => run_streamx f k mx cmd (pcd_absorb_x k mx cmd x (s n)) s (S n)
+         end
+  end.
+
+Definition send_apdux (app : Z -> bytes -> bytes) (fuel : nat) (k : cfg) (mx : option Z) (kc : ccfg)
+    (cla ins p1 p2 : Z) (data : bytes) (mrl : Z) (check_status : bool)
+    (pn : Z) (c : picc) (sc : list (fate * fate)) : outcome :=
+  match apdu_build cla ins p1 p2 data mrl with
+  | Ok a => let o := fst (exchangex app fuel k mx kc a pn c sc) in
+            {| o_res := apdu_finish check_status (o_res o); o_pni := o_pni o; o_card := o_card o;
+               o_blocks := o_blocks o |}
+  | Err e => {| o_res := Err e; o_pni := pn; o_card := c; o_blocks := [] |}
+  | Crash y => {| o_res := Crash y; o_pni := pn; o_card := c; o_blocks := [] |}
+  | Hang => {| o_res := Hang; o_pni := pn; o_card := c; o_blocks := [] |}
+  end.
+
+(* ------------------------------------------------------------------------------
    Type4ATag.__init__ / Type4BTag.__init__: FSC, FWT and retry budget. *)
 Definition fsc_of (fsci : Z) : Z :=
   nth (Z.to_nat fsci) [16; 24; 32; 40; 48; 64; 96; 128; 256] 256.
